@@ -150,11 +150,16 @@ func (c *Ctx) DiffProgram(p *Program, o DiffOpt) DiffResult {
 			continue
 		}
 		if d := DiffTrace(jt, ref, names[i], "go"); d != "" {
-			res.Verdict = "violated"
-			res.Diff = d
+			if res.Verdict != "violated" {
+				res.Verdict = "violated"
+				res.Diff = d
+			}
 			c.violateUnlessQuiet(o.Quiet, p.Name, fmt.Sprintf("%s: %s", p.Name, d), bundle(map[string]string{
 				"js.out": jt.String(), "ref.out": ref.String(), "js.stderr": clipN(jr.Stderr, 6000), "diff.txt": d}))
-			return res
+			if !o.Quiet || len(variants) == 1 {
+				return res
+			}
+			// quiet multi-variant callers classify the difference themselves: run every variant
 		}
 	}
 	if o.NoNative && len(res.JS) > 1 {
